@@ -475,8 +475,27 @@ func (e *Engine) splitGoal(g *smt.Term, hyps []*smt.Term, out *[]subgoal, sk *[]
 		// a or b or Q  ==  (not a and not b) => Q, for a disjunct Q that has structure
 		pick := -1
 		for i, a := range g.Args {
-			if a.Op == smt.OForall || a.Op == smt.OAnd || a.Op == smt.OIte || a.Op == smt.OImplies {
+			if a.Op == smt.OForall || a.Op == smt.OExists || a.Op == smt.OAnd || a.Op == smt.OIte || a.Op == smt.OImplies {
 				pick = i
+			}
+		}
+		if pick < 0 {
+			// (not forall x. P) or Q: the universal formula becomes a hypothesis
+			nf := false
+			for _, a := range g.Args {
+				if a.Op == smt.ONot && a.Args[0].Op == smt.OForall {
+					nf = true
+				}
+			}
+			if nf {
+				for i, a := range g.Args {
+					if !(a.Op == smt.ONot && a.Args[0].Op == smt.OForall) {
+						pick = i
+					}
+				}
+				if pick < 0 {
+					pick = len(g.Args) - 1
+				}
 			}
 		}
 		if pick >= 0 {
@@ -495,6 +514,32 @@ func (e *Engine) splitGoal(g *smt.Term, hyps []*smt.Term, out *[]subgoal, sk *[]
 			e.splitGoal(g.Args[2], append(append([]*smt.Term(nil), hyps...), c.Not(g.Args[0])), out, sk)
 			return
 		}
+	case smt.ONot:
+		if q := g.Args[0]; q.Op == smt.OExists {
+			e.splitGoal(c.Forall(q.BVars, c.Not(q.Args[0])), hyps, out, sk)
+			return
+		} else if q.Op == smt.OForall {
+			e.splitGoal(c.Exists(q.BVars, c.Not(q.Args[0])), hyps, out, sk)
+			return
+		}
+	case smt.OEq:
+		// b == (quantified formula), b a boolean term: two implications
+		if g.Args[0].Sort == smt.Bool {
+			a, b := g.Args[0], g.Args[1]
+			if a.Op == smt.OForall || a.Op == smt.OExists {
+				a, b = b, a
+			}
+			if b.Op == smt.OForall || b.Op == smt.OExists {
+				e.splitGoal(c.Implies(a, b), hyps, out, sk)
+				e.splitGoal(c.Implies(c.Not(a), c.Not(b)), hyps, out, sk)
+				return
+			}
+		}
+	case smt.OExists:
+		// exists x. P  is refuted from  forall x. not P  (instantiated engine-side with the
+		// ground index terms of the query)
+		e.splitGoal(c.False(), append(append([]*smt.Term(nil), hyps...), c.Forall(g.BVars, c.Not(g.Args[0]))), out, sk)
+		return
 	case smt.OForall:
 		// constant small range: expand into one sub-goal per index
 		if len(g.BVars) == 1 && g.Args[0].Op == smt.OImplies {
@@ -596,10 +641,21 @@ func (e *Engine) propagate(hyps []*smt.Term, goal *smt.Term) ([]*smt.Term, *smt.
 	for round := 0; round < 12; round++ {
 		changed := false
 		truth := map[*smt.Term]bool{} // literal -> known value
+		composite := func(t *smt.Term) bool {
+			switch t.Op {
+			case smt.OAnd, smt.OOr, smt.OImplies, smt.OForall, smt.OExists, smt.ONot:
+				return true
+			case smt.OIte:
+				return t.Sort == smt.Bool
+			}
+			return false
+		}
 		for _, h := range hyps {
 			if h.Op == smt.ONot {
-				truth[h.Args[0]] = false
-			} else if h.Op != smt.OAnd && h.Op != smt.OImplies && h.Op != smt.OForall {
+				if !composite(h.Args[0]) {
+					truth[h.Args[0]] = false
+				}
+			} else if !composite(h) {
 				truth[h] = true
 			}
 		}
@@ -620,7 +676,7 @@ func (e *Engine) propagate(hyps []*smt.Term, goal *smt.Term) ([]*smt.Term, *smt.
 			if h.Op == smt.ONot {
 				lit = h.Args[0]
 			}
-			if _, isLit := truth[lit]; isLit && (h.Op != smt.OAnd && h.Op != smt.OImplies && h.Op != smt.OForall) {
+			if _, isLit := truth[lit]; isLit && !composite(lit) {
 				r = h // literal hypotheses are kept as they are
 			} else {
 				r = sb.Apply(h)
@@ -701,7 +757,71 @@ func (e *Engine) splitHyp(h *smt.Term, out *[]*smt.Term) {
 			e.splitHyp(a, out)
 		}
 		return
+	case smt.OExists:
+		if !h.HasBound() {
+			e.splitHyp(e.skolemBody(h), out)
+			return
+		}
+	case smt.OOr:
+		// a disjunct "not (forall x. P)" or "exists x. P" has a witness; name it
+		if !h.HasBound() {
+			changed := false
+			var ds []*smt.Term
+			for _, a := range h.Args {
+				if a.Op == smt.ONot && a.Args[0].Op == smt.OForall {
+					ds = append(ds, c.Not(e.skolemBody(a.Args[0])))
+					changed = true
+				} else if a.Op == smt.OExists {
+					ds = append(ds, e.skolemBody(a))
+					changed = true
+				} else {
+					ds = append(ds, a)
+				}
+			}
+			if changed {
+				e.splitHyp(c.Or(ds...), out)
+				return
+			}
+		}
+	case smt.ONot:
+		// not (a and (forall x. P) and b): De Morgan, then the witness is named by the Or case
+		if q := h.Args[0]; q.Op == smt.OAnd && !h.HasBound() {
+			hasQ := false
+			for _, a := range q.Args {
+				if a.Op == smt.OForall {
+					hasQ = true
+				}
+			}
+			if hasQ {
+				var ds []*smt.Term
+				for _, a := range q.Args {
+					ds = append(ds, c.Not(a))
+				}
+				e.splitHyp(c.Or(ds...), out)
+				return
+			}
+		}
+		// not (forall x. P): there is a witness; name it
+		if q := h.Args[0]; q.Op == smt.OForall && !h.HasBound() {
+			e.splitHyp(c.Not(e.skolemBody(q)), out)
+			return
+		}
 	case smt.OImplies:
+		// (forall x. P) ==> Q is equivalent to exists x. (P ==> Q): name the witness, so that
+		// the engine-side instantiation of other quantified hypotheses can use it
+		if q := h.Args[0]; q.Op == smt.OForall && !h.HasBound() {
+			e.splitHyp(c.Implies(e.skolemBody(q), h.Args[1]), out)
+			return
+		}
+		// a ==> exists x. P  is  exists x. (a ==> P)
+		if q := h.Args[1]; q.Op == smt.OExists && !h.HasBound() {
+			e.splitHyp(c.Implies(h.Args[0], e.skolemBody(q)), out)
+			return
+		}
+		if q := h.Args[1]; q.Op == smt.ONot && q.Args[0].Op == smt.OForall && !h.HasBound() {
+			e.splitHyp(c.Implies(h.Args[0], c.Not(e.skolemBody(q.Args[0]))), out)
+			return
+		}
 		var cons []*smt.Term
 		e.splitHyp(h.Args[1], &cons)
 		if len(cons) > 1 {
@@ -720,6 +840,21 @@ func (e *Engine) splitHyp(h *smt.Term, out *[]*smt.Term) {
 	if !h.IsTrue() {
 		*out = append(*out, h)
 	}
+}
+
+// skolemBody: the body of a universally quantified formula with its bound variables
+// replaced by constants that are fixed per formula (used for existential witnesses).
+func (e *Engine) skolemBody(q *smt.Term) *smt.Term {
+	if r, ok := e.skMemo[q]; ok {
+		return r
+	}
+	m := map[*smt.Term]*smt.Term{}
+	for _, v := range q.BVars {
+		m[v] = e.C.Fresh("wit$"+strings.SplitN(v.Name, "?", 2)[0], v.Sort)
+	}
+	r := e.C.Subst(q.Args[0], m)
+	e.skMemo[q] = r
+	return r
 }
 
 // versionedArrs: the fresh (non-input) array symbols of t, memoized per term. A
@@ -1000,9 +1135,15 @@ type DischargeOpts struct {
 func (e *Engine) instantiate(hyps []*smt.Term, goal *smt.Term, skolems []*smt.Term) []*smt.Term {
 	c := e.C
 	var quants, ground []*smt.Term
+	var qguards [][]*smt.Term // per entry of quants: the other (ground) disjuncts, nil if unguarded
 	for _, h := range hyps {
 		if h.Op == smt.OForall {
 			quants = append(quants, h)
+			qguards = append(qguards, nil)
+		} else if gq, rest := e.guardedForall(h); gq != nil {
+			// g1 or ... or (forall x. P): instances are g1 or ... or P[t]
+			quants = append(quants, gq)
+			qguards = append(qguards, rest)
 		} else if h.Op == smt.OExists {
 			// existential hypotheses: skolemise
 			m := map[*smt.Term]*smt.Term{}
@@ -1018,7 +1159,7 @@ func (e *Engine) instantiate(hyps []*smt.Term, goal *smt.Term, skolems []*smt.Te
 		return ground
 	}
 	out := ground
-	for round := 0; round < 2; round++ {
+	for round := 0; round < 3; round++ {
 		// ground index terms of the current query
 		gidx := map[*smt.Term]bool{}
 		seen := map[*smt.Term]bool{}
@@ -1036,6 +1177,14 @@ func (e *Engine) instantiate(hyps []*smt.Term, goal *smt.Term, skolems []*smt.Te
 			}
 			if t.Op == smt.OApp && t.Name == "sbyte" {
 				gidx[t.Args[1]] = true
+			}
+			if t.Op == smt.OApp && strings.HasPrefix(t.Name, "spec$") {
+				// integer arguments of uninterpreted spec functions (specTok(h, key, i), ...)
+				for _, a := range t.Args {
+					if a.Sort == smt.BV64 && !a.HasBound() && (a.Op == smt.OBvAdd || a.Op == smt.OConst || strings.HasPrefix(a.Name, "sk$") || strings.HasPrefix(a.Name, "wit$") || strings.HasPrefix(a.Name, "loop$")) {
+						gidx[a] = true
+					}
+				}
 			}
 			for _, a := range t.Args {
 				rec(a)
@@ -1056,7 +1205,7 @@ func (e *Engine) instantiate(hyps []*smt.Term, goal *smt.Term, skolems []*smt.Te
 		sort.Slice(gl, func(i, j int) bool { return gl[i].ID < gl[j].ID })
 		added := map[*smt.Term]bool{}
 		var inst []*smt.Term
-		for _, q := range quants {
+		for qi, q := range quants {
 			if len(q.BVars) != 1 || q.BVars[0].Sort != smt.BV64 {
 				continue
 			}
@@ -1083,6 +1232,13 @@ func (e *Engine) instantiate(hyps []*smt.Term, goal *smt.Term, skolems []*smt.Te
 				}
 				if t.Op == smt.OApp && t.Name == "sbyte" {
 					idx = t.Args[1]
+				}
+				if t.Op == smt.OApp && strings.HasPrefix(t.Name, "spec$") {
+					for _, a := range t.Args {
+						if a == bv {
+							direct = true
+						}
+					}
 				}
 				if idx != nil {
 					if idx == bv {
@@ -1126,6 +1282,9 @@ func (e *Engine) instantiate(hyps []*smt.Term, goal *smt.Term, skolems []*smt.Te
 			}
 			for _, t := range cl {
 				in := c.Subst(q.Args[0], map[*smt.Term]*smt.Term{bv: t})
+				if qi < len(qguards) && qguards[qi] != nil {
+					in = c.Or(append(append([]*smt.Term(nil), qguards[qi]...), in)...)
+				}
 				if !in.IsTrue() && !added[in] {
 					added[in] = true
 					inst = append(inst, in)
@@ -1138,8 +1297,20 @@ func (e *Engine) instantiate(hyps []*smt.Term, goal *smt.Term, skolems []*smt.Te
 			have[h] = true
 		}
 		for _, in := range inst {
-			if !have[in] {
-				out = append(out, in)
+			// instances may contain nested "not forall" (named witnesses) and conjunctions
+			var parts []*smt.Term
+			e.splitHyp(in, &parts)
+			for _, p := range parts {
+				if have[p] {
+					continue
+				}
+				have[p] = true
+				if p.Op == smt.OForall {
+					quants = append(quants, p)
+					qguards = append(qguards, nil)
+				} else {
+					out = append(out, p)
+				}
 			}
 		}
 		if len(out) == n0 {
@@ -1147,6 +1318,79 @@ func (e *Engine) instantiate(hyps []*smt.Term, goal *smt.Term, skolems []*smt.Te
 		}
 	}
 	return out
+}
+
+// unfoldDefs replaces revealed applications of opaque spec functions by their definitions
+// in the goal and the hypotheses of an obligation (the definitional equalities are among
+// the hypotheses). It fails if one application has two different definitions on the path.
+func (e *Engine) unfoldDefs(ob *Obligation) bool {
+	if len(e.DefEqs) == 0 || ob.unfolded {
+		return true
+	}
+	ob.unfolded = true
+	defs := map[*smt.Term]*smt.Term{}
+	for _, h := range ob.Hyps {
+		if td, ok := e.DefEqs[h]; ok {
+			if d0, dup := defs[td[0]]; dup && d0 != td[1] && !smt.AlphaEq(d0, td[1]) {
+				return false
+			}
+			defs[td[0]] = td[1]
+		}
+	}
+	if len(defs) == 0 {
+		return true
+	}
+	// the goal is unfolded (so that its structure can be split); the hypotheses keep the
+	// applications and get the definitions as two implications each, which splitHyp and the
+	// engine-side instantiation handle (guarded quantifier / named witness)
+	sb := e.C.NewSubst(defs)
+	var nh []*smt.Term
+	for _, h := range ob.Hyps {
+		if td, ok := e.DefEqs[h]; ok {
+			nh = append(nh, e.C.Implies(td[0], td[1]), e.C.Implies(e.C.Not(td[0]), e.C.Not(td[1])))
+			continue
+		}
+		nh = append(nh, h)
+	}
+	ob.Hyps = nh
+	ob.Goal = sb.Apply(ob.Goal)
+	return true
+}
+
+// guardedForall recognises  g1 or ... or gn or (forall x. P)  (also written as an
+// implication) with exactly one universally quantified disjunct and no free bound variables.
+func (e *Engine) guardedForall(h *smt.Term) (*smt.Term, []*smt.Term) {
+	if h.HasBound() {
+		return nil, nil
+	}
+	var ds []*smt.Term
+	switch h.Op {
+	case smt.OOr:
+		ds = h.Args
+	case smt.OImplies:
+		if h.Args[1].Op != smt.OForall {
+			return nil, nil
+		}
+		return h.Args[1], []*smt.Term{e.C.Not(h.Args[0])}
+	default:
+		return nil, nil
+	}
+	var q *smt.Term
+	var rest []*smt.Term
+	for _, d := range ds {
+		if d.Op == smt.OForall {
+			if q != nil {
+				return nil, nil
+			}
+			q = d
+		} else {
+			rest = append(rest, d)
+		}
+	}
+	if q == nil || len(q.BVars) != 1 {
+		return nil, nil
+	}
+	return q, rest
 }
 
 func (e *Engine) Discharge(obs []*Obligation, opts DischargeOpts) {
@@ -1169,6 +1413,18 @@ func (e *Engine) Discharge(obs []*Obligation, opts DischargeOpts) {
 	// ensures clauses and frame conditions at one return) share their hypotheses; they
 	// are first tried together in one query (hyps and not(g1 and ... and gn)). Only if
 	// that is not answered unsat are they discharged one by one below.
+	{
+		var ok []*Obligation
+		for _, ob := range obs {
+			if !e.unfoldDefs(ob) {
+				ob.Status = "undecided:opaque-redefined"
+				ob.Result = &smt.Result{Status: "error", Solver: "engine", Output: "an opaque spec function application was revealed with two different definitions on this path (its inputs changed)"}
+				continue
+			}
+			ok = append(ok, ob)
+		}
+		obs = ok
+	}
 	if !opts.NoBatch {
 		obs = e.batchDischarge(obs, opts)
 	}
@@ -1179,6 +1435,11 @@ func (e *Engine) Discharge(obs []*Obligation, opts DischargeOpts) {
 	for _, ob := range obs {
 		var subs []subgoal
 		var sk []*smt.Term
+		if !e.unfoldDefs(ob) {
+			ob.Status = "undecided:opaque-redefined"
+			ob.Result = &smt.Result{Status: "error", Solver: "engine", Output: "an opaque spec function application was revealed with two different definitions on this path (its inputs changed)"}
+			continue
+		}
 		e.splitGoal(ob.Goal, nil, &subs, &sk)
 		ob.Skolems = sk
 		var cases []subgoal
